@@ -33,11 +33,11 @@ Definition pst : Type := option (sunit * list spkt).
 
 Definition complete (u : sunit) (d : list spkt) : Prop := payload_of d = unit_bytes u.
 
-(* the packets d are a beginning of u that ends inside the last section (PSI units) *)
+(* the packets d are a beginning of u that does not end on a section boundary (PSI units) *)
 Definition partial (u : sunit) (d : list spkt) : Prop :=
   match u with
   | UPsi su => (exists S', psi_unit_bytes su = payload_of d ++ S') /\
-               last_sec_start su < Z.of_nat (length (payload_of d)) < last_sec_end su
+               psi_mid su (Z.of_nat (length (payload_of d))) = true
   | UPes _ => True
   end.
 
@@ -1029,30 +1029,36 @@ Proof.
   destruct (k =? x) eqn:E; [|exact IH]. right. assert (k = x) by lia. subst k. exact Hk.
 Qed.
 
-(* the data of a unit are fewer than the bytes of one packet *)
-Lemma unit_data_small x c : carried_ok SP x c ->
-  (length (unit_data x (cu_unit c) (sp_pkt (cu_first c))) <= 188)%nat.
+(* the data of a unit are no more than its bytes *)
+Lemma unit_data_le x u p : unit_ok SP u -> (length (unit_data x u p) <= length (unit_bytes u))%nat.
 Proof.
-  intros (Hu & Hon & _ & _ & Hpay & Hpart). destruct (cu_unit c) as [pu|su] eqn:Eu; [cbn; lia|].
-  cbn [unit_data unit_ok unit_bytes psi_partial] in *.
-  destruct Hu as (Hp & Hf & _ & Hne & Hs).
-  pose proof (payload_le _ (proj1 (Forall_inv Hon))) as Hle.
-  assert (Hlen : forall l, (length (flat_map (fun s => section_to_data (se_value s) (first_pkt (sp_pkt (cu_first c))) x) l)
-                  <= 2 * length l)%nat).
-  { induction l as [|s l IH]; [cbn; lia|]. cbn [flat_map length]. rewrite app_length.
-    pose proof (section_to_data_len (se_value s) (first_pkt (sp_pkt (cu_first c))) x). lia. }
-  specialize (Hlen (su_secs su)).
-  destruct (exists_last Hne) as (front & lst & E).
-  assert (Hfront : (3 * length front < 188)%nat).
-  { pose proof (secs_framed SP _ Hs) as Hfr. rewrite E, map_app in Hfr. apply Forall_app in Hfr. destruct Hfr as [Hfr _].
-    pose proof (concat_framed_length3 _ Hfr) as H3. rewrite map_length in H3.
-    assert (Hp1 : payload_of [cu_first c] = sp_payload (cu_first c)) by (unfold payload_of; cbn [map concat]; apply app_nil_r).
-    destruct (cu_rest c) as [|r1 rest] eqn:Er.
-    - unfold cu_pkts in Hpay. rewrite Er, Hp1 in Hpay. unfold psi_unit_bytes in Hpay.
-      pose proof (f_equal (@length Z) Hpay) as Hl. cbn [length] in Hl. rewrite !app_length, E, map_app, concat_app, app_length in Hl. lia.
-    - specialize (Hpart 1%nat). unfold cu_pkts in Hpart. rewrite Er in Hpart. cbn [length firstn] in Hpart.
-      specialize (Hpart ltac:(lia)). rewrite Hp1 in Hpart. unfold last_sec_start in Hpart. rewrite E, removelast_last in Hpart. lia. }
-  rewrite E, app_length in Hlen. cbn [length] in Hlen. rewrite E. lia.
+  destruct u as [pu|su]; cbn [unit_ok unit_data unit_bytes].
+  - intros Hok. destruct (pes_unit_start pu ltac:(apply Hok) (pes_plen_range pu Hok)) as (tail & ->). cbn [length]. lia.
+  - intros (Hp & Hf & _ & _ & Hs). pose proof (concat_framed_length3 _ (secs_framed SP _ Hs)) as H3. rewrite map_length in H3.
+    assert (Hlen : forall l, (length (flat_map (fun s => section_to_data (se_value s) (first_pkt p) x) l) <= 2 * length l)%nat).
+    { induction l as [|s l IH]; [cbn; lia|]. cbn [flat_map length]. rewrite app_length.
+      pose proof (section_to_data_len (se_value s) (first_pkt p) x). lia. }
+    specialize (Hlen (su_secs su)). unfold psi_unit_bytes. cbn [length]. rewrite !app_length. lia.
+Qed.
+
+Lemma payload_of_len l : Forall spkt_ok l -> (length (payload_of l) <= 188 * length l)%nat.
+Proof.
+  induction 1 as [|sp l Hsp _ IH]; [cbn; lia|]. unfold payload_of in *. cbn [map concat length]. rewrite app_length.
+  pose proof (payload_le sp Hsp). lia.
+Qed.
+
+Lemma number_from_length u n : forall l k, length (number_from u n k l) = length l.
+Proof. induction l as [|p l IH]; intros k; [reflexivity|]. cbn [number_from length]. rewrite IH. reflexivity. Qed.
+
+(* per PID: no more data than 188 times its packets *)
+Lemma units_data_len x cus : Forall (carried_ok SP x) cus ->
+  (length (flat_map (fun c => unit_data x (cu_unit c) (sp_pkt (cu_first c))) cus) <= 188 * length (flat_map labelled cus))%nat.
+Proof.
+  induction 1 as [|c cus (Hu & Hon & _ & _ & Hpay & _) _ IH]; [cbn; lia|]. cbn [flat_map]. rewrite !app_length.
+  pose proof (unit_data_le x (cu_unit c) (sp_pkt (cu_first c)) Hu) as H1. rewrite <- Hpay in H1.
+  assert (Hok : Forall spkt_ok (cu_pkts c)) by (eapply Forall_impl; [|exact Hon]; intros a Ha; apply Ha).
+  pose proof (payload_of_len _ Hok) as H2.
+  assert (Hl : length (labelled c) = length (cu_pkts c)) by (unfold labelled; apply number_from_length). lia.
 Qed.
 
 Section Stream.
@@ -1072,19 +1078,18 @@ Proof.
 Qed.
 
 Lemma event_facts x u k n p : In (EPkt x u k n p) (rs_events rs) ->
-  kind_ok tbl pes x u /\ In x pidl /\ pkt_on x p /\ (k = 0%nat -> (length (unit_data x u (sp_pkt p)) <= 188)%nat).
+  kind_ok tbl pes x u /\ In x pidl /\ pkt_on x p.
 Proof.
   intros H. destruct (event_unit x u k n p H) as (c & Hc & Hin & (Hcar & _ & Hkind)).
   destruct (in_labelled c u k n p Hin) as (-> & Hp & Hk0).
   pose proof (proj1 (Forall_forall _ _) Hcar c Hc) as Hcok.
-  split; [|split; [|split]].
+  split; [|split].
   - unfold kind_ok, tbl, pes, table_pid, pes_pid. destruct (units_of (rs_pids rs) x) as [|c0 l] eqn:E; [contradiction|].
     destruct Hkind as [[Hes Hall]|[Htp Hall]].
     + rewrite (proj1 (Forall_forall _ _) Hall c Hc), (Forall_inv Hall). split; [exact Hes|reflexivity].
     + rewrite (proj1 (Forall_forall _ _) Hall c Hc), (Forall_inv Hall). split; [exact Htp|reflexivity].
   - apply units_of_in. intros E. rewrite E in Hc. contradiction.
   - destruct Hcok as (_ & Hon & _). apply (proj1 (Forall_forall _ _) Hon p Hp).
-  - intros Hk. rewrite (Hk0 Hk). apply (unit_data_small x c Hcok).
 Qed.
 
 Lemma evs_ok_intro : forall evs reg,
@@ -1115,7 +1120,7 @@ Proof.
     { clear - He. induction (rs_events rs) as [|e r IH]; [contradiction|]. destruct He as [->|He]; [left; reflexivity|].
       destruct e; cbn [fillers]; [right|]; apply IH, He. }
     apply (proj1 (Forall_forall _ _) Hfill q Hq).
-  - destruct (event_facts x u k n q He) as (_ & _ & (Hok & _) & _). exact Hok.
+  - destruct (event_facts x u k n q He) as (_ & _ & (Hok & _)). exact Hok.
 Qed.
 
 Lemma stream_bufs : StreamSpec.stream_bytes rs = concat (map (fun e => spkt_bytes (ev_pkt e)) (rs_events rs)).
@@ -1249,6 +1254,86 @@ Proof.
     specialize (IH p' Hr). cbn [length]. lia.
 Qed.
 
+(* ---------------- counting: the data of a stream are fewer than its bytes ---------------- *)
+
+Fixpoint sum_over (f : Z -> nat) (l : list Z) : nat := match l with [] => 0%nat | a :: r => (f a + sum_over f r)%nat end.
+
+Lemma sum_over_add f g l : sum_over (fun x => (f x + g x)%nat) l = (sum_over f l + sum_over g l)%nat.
+Proof. induction l as [|a l IH]; [reflexivity|]. cbn [sum_over]. rewrite IH. lia. Qed.
+
+Lemma sum_over_le f g l : (forall x, In x l -> (f x <= g x)%nat) -> (sum_over f l <= sum_over g l)%nat.
+Proof.
+  induction l as [|a l IH]; intros H; [cbn; lia|]. cbn [sum_over].
+  pose proof (H a ltac:(left; reflexivity)). specialize (IH ltac:(intros x Hx; apply H; right; exact Hx)). lia.
+Qed.
+
+Lemma sum_over_mul c f l : sum_over (fun x => (c * f x)%nat) l = (c * sum_over f l)%nat.
+Proof. induction l as [|a l IH]; [cbn; lia|]. cbn [sum_over]. rewrite IH. lia. Qed.
+
+Lemma sum_over_zero f l : (forall x, f x = 0%nat) -> sum_over f l = 0%nat.
+Proof. intros H. induction l as [|a l IH]; [reflexivity|]. cbn [sum_over]. rewrite H, IH. reflexivity. Qed.
+
+Definition hit (y x : Z) : nat := if y =? x then 1%nat else 0%nat.
+
+Lemma hit_none y l : ~ In y l -> sum_over (hit y) l = 0%nat.
+Proof.
+  induction l as [|a l IH]; intros H; [reflexivity|]. cbn [sum_over]. unfold hit at 1.
+  destruct (y =? a) eqn:E; [exfalso; apply H; left; lia|]. rewrite IH; [reflexivity|]. intros H'. apply H. right. exact H'.
+Qed.
+
+Lemma hit_le y l : NoDup l -> (sum_over (hit y) l <= 1)%nat.
+Proof.
+  induction 1 as [|a l Ha _ IH]; [cbn; lia|]. cbn [sum_over]. unfold hit at 1. destruct (y =? a) eqn:E; [|lia].
+  assert (y = a) by lia. subst a. rewrite (hit_none y l Ha). lia.
+Qed.
+
+Lemma hit_one y l : NoDup l -> In y l -> sum_over (hit y) l = 1%nat.
+Proof.
+  induction 1 as [|a l Ha _ IH]; intros Hin; [contradiction|]. cbn [sum_over]. unfold hit at 1. destruct (y =? a) eqn:E.
+  - assert (y = a) by lia. subst a. rewrite (hit_none y l Ha). reflexivity.
+  - destruct Hin as [->|Hin]; [lia|]. rewrite (IH Hin). reflexivity.
+Qed.
+
+Lemma partition_len pids : NoDup pids -> forall L, Forall (fun d => In (DemuxerData_PID d) pids) L ->
+  length L = sum_over (fun x => length (filter (on_x x) L)) pids.
+Proof.
+  intros Hnd. induction 1 as [|d L Hd _ IH]; [symmetry; apply sum_over_zero; reflexivity|].
+  cbn [length]. rewrite IH.
+  assert (E : forall l, sum_over (fun x => length (filter (on_x x) (d :: L))) l =
+              (sum_over (hit (DemuxerData_PID d)) l + sum_over (fun x => length (filter (on_x x) L)) l)%nat).
+  { intros l. rewrite <- sum_over_add. induction l as [|a l IHl]; [reflexivity|]. cbn [sum_over]. rewrite IHl. f_equal.
+    cbn [filter]. unfold on_x at 1, hit. destruct (DemuxerData_PID d =? a); reflexivity. }
+  rewrite E, (hit_one _ _ Hnd Hd). reflexivity.
+Qed.
+
+Lemma proj_len_sum pids : NoDup pids -> forall evs, (sum_over (fun x => length (proj x evs)) pids <= length evs)%nat.
+Proof.
+  intros Hnd. induction evs as [|e r IH]; [rewrite sum_over_zero by reflexivity; cbn; lia|].
+  destruct e as [q|y u k n q]; cbn [length].
+  - assert (E : forall l, sum_over (fun x => length (proj x (EFill q :: r))) l = sum_over (fun x => length (proj x r)) l) by reflexivity.
+    rewrite E. lia.
+  - assert (E : forall l, sum_over (fun x => length (proj x (EPkt y u k n q :: r))) l =
+                (sum_over (hit y) l + sum_over (fun x => length (proj x r)) l)%nat).
+    { intros l. rewrite <- sum_over_add. induction l as [|a l IHl]; [reflexivity|]. cbn [sum_over]. rewrite IHl. f_equal.
+      cbn [proj]. unfold hit. destruct (y =? a); reflexivity. }
+    rewrite E. pose proof (hit_le y pids Hnd). lia.
+Qed.
+
+Lemma expect_pids pids : forall evs pend, pid_tagged pend ->
+  (forall x u k n p, In (EPkt x u k n p) evs -> In x pids) ->
+  Forall (fun d => In (DemuxerData_PID d) pids) (StreamSpec.expect pids pend evs).
+Proof.
+  induction evs as [|e r IH]; intros pend Ht Hev.
+  - cbn [StreamSpec.expect]. apply Forall_forall. intros d Hd. apply in_flat_map in Hd. destruct Hd as (y & Hy & Hd).
+    rewrite (proj1 (Forall_forall _ _) (Ht y) d Hd). exact Hy.
+  - destruct e as [q|x u k n q]; cbn [StreamSpec.expect].
+    + apply IH; [exact Ht|]. intros x u k n p H. apply (Hev x u k n p). right. exact H.
+    + destruct (ev_out_tagged pend x u k n q Ht) as [Ho Ht'].
+      destruct (ev_out pend x u k n q) as [o p']. cbn [fst snd] in *. apply Forall_app. split.
+      * eapply Forall_impl; [|exact Ho]. intros d ->. apply (Hev x u k n q). left. reflexivity.
+      * apply IH; [exact Ht'|]. intros x' u' k' n' p H. apply (Hev x' u' k' n' p). right. exact H.
+Qed.
+
 (* ---------------- the theorems ---------------- *)
 
 Section Final.
@@ -1321,13 +1406,32 @@ Proof.
   - intros x. apply (stream_seq SP SP_parses rs Hwf).
 Qed.
 
+(* per PID: exactly the units of that PID, each once, in order - whatever the interleaving *)
+Theorem data_per_pid x : filter (on_x x) (expected rs) = expected_on rs x.
+Proof.
+  pose proof Hwf as (Hsorted & Hall & Hproj & _). unfold expected, expected_on.
+  assert (Ht : pid_tagged no_pend) by (intros y; constructor).
+  destruct (in_dec Z.eq_dec x pidl) as [Hin|Hout].
+  - rewrite (expect_on_x pidl x (sorted_nodup _ Hsorted) Hin _ _ Ht). cbn [no_pend app].
+    rewrite Hproj. apply starts_labelled.
+  - rewrite (expect_off_x pidl x Hout _ _ Ht eq_refl).
+    + destruct (units_of (rs_pids rs) x) as [|c l] eqn:E; [reflexivity|]. exfalso. apply Hout.
+      apply units_of_in. rewrite E. discriminate.
+    + intros y u k n p H -> . destruct (event_facts SP rs Hwf x u k n p H) as (_ & B & _). exact (Hout B).
+Qed.
+
 Lemma expected_length : (length (expected rs) <= 188 * length (rs_events rs))%nat.
 Proof.
-  pose proof Hwf as (Hsorted & _).
-  pose proof (expect_length pidl (sorted_nodup _ Hsorted) (rs_events rs) no_pend) as H.
-  assert (E : forall l : list Z, flat_map no_pend l = []) by (induction l as [|a l IHl]; [reflexivity|exact IHl]).
-  rewrite (E pidl) in H. cbn [length] in H. apply H.
-  intros x u k n p Hin. destruct (event_facts SP rs Hwf x u k n p Hin) as (_ & B & _ & D). split; assumption.
+  pose proof Hwf as (Hsorted & Hall & Hproj & _). pose proof (sorted_nodup _ Hsorted) as Hnd. fold pidl in Hnd.
+  assert (Ht : pid_tagged no_pend) by (intros y; constructor).
+  assert (Hp : Forall (fun d => In (DemuxerData_PID d) pidl) (expected rs)).
+  { apply expect_pids; [exact Ht|]. intros x u k n p H. apply (event_facts SP rs Hwf x u k n p H). }
+  rewrite (partition_len pidl Hnd _ Hp).
+  apply (Nat.le_trans _ (sum_over (fun x => 188 * length (proj x (rs_events rs)))%nat pidl)).
+  - apply sum_over_le. intros x _. rewrite data_per_pid, Hproj. unfold expected_on.
+    destruct (units_of_ok SP (rs_pids rs) x Hall) as [E|(Hcar & _)]; [rewrite E; cbn; lia|].
+    apply (units_data_len SP SP_parses x _ Hcar).
+  - rewrite sum_over_mul. pose proof (proj_len_sum pidl Hnd (rs_events rs)). lia.
 Qed.
 
 (* C02, delivered data: successive NextData calls on the bytes of a well-formed stream return exactly the expected
@@ -1345,20 +1449,6 @@ Proof.
   - rewrite He. reflexivity.
   - rewrite He. pose proof expected_length as Hl. pose proof (concat_length_188 bufs Hb) as Hlen.
     unfold bufs in Hlen at 2. rewrite !map_length in Hlen. lia.
-Qed.
-
-(* per PID: exactly the units of that PID, each once, in order - whatever the interleaving *)
-Theorem data_per_pid x : filter (on_x x) (expected rs) = expected_on rs x.
-Proof.
-  pose proof Hwf as (Hsorted & Hall & Hproj & _). unfold expected, expected_on.
-  assert (Ht : pid_tagged no_pend) by (intros y; constructor).
-  destruct (in_dec Z.eq_dec x pidl) as [Hin|Hout].
-  - rewrite (expect_on_x pidl x (sorted_nodup _ Hsorted) Hin _ _ Ht). cbn [no_pend app].
-    rewrite Hproj. apply starts_labelled.
-  - rewrite (expect_off_x pidl x Hout _ _ Ht eq_refl).
-    + destruct (units_of (rs_pids rs) x) as [|c l] eqn:E; [reflexivity|]. exfalso. apply Hout.
-      apply units_of_in. rewrite E. discriminate.
-    + intros y u k n p H -> . destruct (event_facts SP rs Hwf x u k n p H) as (_ & B & _). exact (Hout B).
 Qed.
 
 (* where the reader stands: the call that returns the first datum delivered by the packet (x, u, k of n) - for a
@@ -1561,13 +1651,12 @@ Proof.
   constructor; [exact H1|apply IH, H2].
 Qed.
 
-(* the cut is admissible for the unit: pieces of at most 184 bytes; for a PSI unit every proper beginning ends inside
-   the last section (S5) *)
+(* the cut is admissible for the unit: pieces of at most 184 bytes; for a PSI unit no proper beginning ends on a
+   section boundary (S5) *)
 Definition cut_ok_b (u : sunit) (pieces : list (list Z)) : bool :=
   forallb (fun pc => (length pc <=? 184)%nat) pieces &&
   match u with
-  | UPsi su => forallb (fun k => let L := Z.of_nat (length (concat (firstn k pieces))) in
-                                 (last_sec_start su <? L) && (L <? last_sec_end su)) (seq 1 (length pieces - 1))
+  | UPsi su => forallb (fun k => psi_mid su (Z.of_nat (length (concat (firstn k pieces))))) (seq 1 (length pieces - 1))
   | UPes _ => true
   end.
 
@@ -1614,33 +1703,36 @@ Proof.
     assert (Hl : length (piece_packets x cc true pieces sv) = length pieces).
     { rewrite <- (piece_packets_payload x sv pieces cc true) at 2. rewrite map_length. reflexivity. }
     rewrite Hl in Hk. unfold payload_of. rewrite <- firstn_map, piece_packets_payload.
-    rewrite forallb_forall in Hpsi. specialize (Hpsi k ltac:(apply in_seq; lia)). cbv zeta in Hpsi. lia.
+    rewrite forallb_forall in Hpsi. exact (Hpsi k ltac:(apply in_seq; lia)).
 Qed.
 
 End Inhabited.
 
 (* ---------------- a concrete stream ---------------- *)
 
-(* PAT (PID 0, one packet, 0xFF tail), PMT (PID 4096, pointer_field 2, cut into three packets of 8 / 10 / 11 bytes
-   with adaptation-field stuffing of value 0x42), a video PID 256 (two PES with PTS, CRC, pack header and header
+(* PAT (PID 0, two sections and a 0xFF tail, cut in the middle of the first section), PMT (PID 4096, pointer_field 2,
+   cut into three packets of 8 / 10 / 11 bytes with adaptation-field stuffing of value 0x42), a video PID 256 (two PES with PTS, CRC, pack header and header
    stuffing, PES_packet_length 0, the first cut into two packets), an audio PID 257 (one bounded PES), interleaved,
    with a null packet, an adaptation-field-only packet and a packet with the transport_error_indicator in between *)
 Definition ex_pat_sec : psi_sec :=
-  {| se_tid := 0; se_ssi := true; se_pb := false; se_body := spec_pat_body 1 0 true 0 0 [(1, 4096)];
-     se_value := pat_section_value true false 1 0 true 0 0 [(1, 4096)] |}.
+  {| se_tid := 0; se_ssi := true; se_pb := false; se_body := spec_pat_body 1 0 true 0 1 [(1, 4096)];
+     se_value := pat_section_value true false 1 0 true 0 1 [(1, 4096)] |}.
+Definition ex_pat_sec1 : psi_sec :=
+  {| se_tid := 0; se_ssi := true; se_pb := false; se_body := spec_pat_body 1 0 true 1 1 [(2, 4097)];
+     se_value := pat_section_value true false 1 0 true 1 1 [(2, 4097)] |}.
 Definition ex_streams : list (Z * Z * list Descriptor * list Z) := [(27, 256, [], []); (15, 257, [], [])].
 Definition ex_pmt_sec : psi_sec :=
   {| se_tid := 2; se_ssi := true; se_pb := false;
      se_body := spec_pmt_body 1 0 true 0 0 256 [] (map stream_spec ex_streams);
      se_value := pmt_section_value true false 1 0 true 0 0 256 [] [] ex_streams |}.
-Definition ex_pat : sunit := UPsi {| su_ptr := 0; su_fill := []; su_secs := [ex_pat_sec]; su_tail := 3 |}.
+Definition ex_pat : sunit := UPsi {| su_ptr := 0; su_fill := []; su_secs := [ex_pat_sec; ex_pat_sec1]; su_tail := 3 |}.
 Definition ex_pmt : sunit := UPsi {| su_ptr := 2; su_fill := [170; 85]; su_secs := [ex_pmt_sec]; su_tail := 0 |}.
 Definition ex_opt := Some (example_all, [170; 187], 3%nat).
 Definition ex_v1 : sunit := UPes {| pu_sid := 224; pu_plen := 0; pu_opt := ex_opt; pu_data := [1; 2; 3; 4; 5; 6; 7; 8; 9; 10] |}.
 Definition ex_v2 : sunit := UPes {| pu_sid := 224; pu_plen := 0; pu_opt := ex_opt; pu_data := [11; 12; 13; 14; 15] |}.
 Definition ex_a1 : sunit := UPes {| pu_sid := 192; pu_plen := 23; pu_opt := ex_opt; pu_data := [21; 22; 23; 24] |}.
 
-Definition c_pat := carry 0 5 ex_pat [] 255.
+Definition c_pat := carry 0 5 ex_pat [10%nat] 255.
 Definition c_pmt := carry 4096 9 ex_pmt [8%nat; 10%nat] 66.
 Definition c_v1 := carry 256 14 ex_v1 [12%nat] 0.
 Definition c_v2 := carry 256 16 ex_v2 [] 255.
@@ -1654,7 +1746,7 @@ Definition ex_af_only := raw_packet 256 15 false false false [] 255.
 Definition ex_tei := raw_packet 257 4 true false true (repeat 9 184) 0.
 
 Definition ex_events : list ev :=
-  [ at_ev 0 c_pat 0; EFill ex_null; at_ev 256 c_v1 0; at_ev 4096 c_pmt 0; at_ev 257 c_a1 0; at_ev 4096 c_pmt 1;
+  [ at_ev 0 c_pat 0; EFill ex_null; at_ev 256 c_v1 0; at_ev 0 c_pat 1; at_ev 4096 c_pmt 0; at_ev 257 c_a1 0; at_ev 4096 c_pmt 1;
     at_ev 256 c_v1 1; EFill ex_af_only; at_ev 4096 c_pmt 2; EFill ex_tei; at_ev 256 c_v2 0 ].
 
 Definition ex_stream : ref_stream :=
@@ -1673,13 +1765,18 @@ Lemma ex_units_ok : unit_ok c13_sections ex_pat /\ unit_ok c13_sections ex_pmt /
   unit_ok c13_sections ex_v1 /\ unit_ok c13_sections ex_v2 /\ unit_ok c13_sections ex_a1.
 Proof.
   split; [|split; [|split; [|split]]].
-  - cbn [unit_ok ex_pat]. unfold psi_unit_ok. cbn [su_ptr su_fill su_secs]. split; [lia|]. split; [reflexivity|].
-    split; [constructor|]. split; [discriminate|]. constructor; [|constructor].
-    unfold sec_ok. cbn [se_tid se_body ex_pat_sec]. split; [lia|]. split; [reflexivity|].
-    split; [vm_compute; reflexivity|]. split; [apply bytes_ok_b; vm_compute; reflexivity|].
-    unfold sec_bytes. cbn [se_tid se_ssi se_pb se_body se_value ex_pat_sec].
-    refine (c13_pat true false 1 0 true 0 0 [(1, 4096)] _).
-    unfold pat_wf, pat_entry_ok. cbn [length]. repeat split; try lia. repeat constructor; cbn [fst snd]; lia.
+  - assert (Hsec : forall sn progs, pat_wf 1 0 sn 1 progs -> bytes_ok (spec_pat_body 1 0 true sn 1 progs) ->
+              Z.of_nat (length (spec_pat_body 1 0 true sn 1 progs)) + 4 < 4096 ->
+              sec_ok c13_sections {| se_tid := 0; se_ssi := true; se_pb := false; se_body := spec_pat_body 1 0 true sn 1 progs;
+                                     se_value := pat_section_value true false 1 0 true sn 1 progs |}).
+    { intros sn progs Hw Hb Hl. unfold sec_ok. cbn [se_tid se_body]. split; [lia|]. split; [reflexivity|]. split; [exact Hl|].
+      split; [exact Hb|]. unfold sec_bytes. cbn [se_tid se_ssi se_pb se_body se_value]. exact (c13_pat true false 1 0 true sn 1 progs Hw). }
+    cbn [unit_ok ex_pat]. unfold psi_unit_ok. cbn [su_ptr su_fill su_secs]. split; [lia|]. split; [reflexivity|].
+    split; [constructor|]. split; [discriminate|]. constructor; [|constructor; [|constructor]].
+    + apply Hsec; [|apply bytes_ok_b; vm_compute; reflexivity|vm_compute; reflexivity].
+      unfold pat_wf, pat_entry_ok. cbn [length]. repeat split; try lia. repeat constructor; cbn [fst snd]; lia.
+    + apply Hsec; [|apply bytes_ok_b; vm_compute; reflexivity|vm_compute; reflexivity].
+      unfold pat_wf, pat_entry_ok. cbn [length]. repeat split; try lia. repeat constructor; cbn [fst snd]; lia.
   - cbn [unit_ok ex_pmt]. unfold psi_unit_ok. cbn [su_ptr su_fill su_secs]. split; [lia|]. split; [reflexivity|].
     split; [apply bytes_ok_b; reflexivity|]. split; [discriminate|]. constructor; [|constructor].
     unfold sec_ok. cbn [se_tid se_body ex_pmt_sec]. split; [lia|]. split; [reflexivity|].
@@ -1707,7 +1804,7 @@ Proof.
   - assert (F1 : forall x c, carried_ok c13_sections x c -> Forall (carried_ok c13_sections x) [c]) by (intros; constructor; [assumption|constructor]).
     assert (G1 : forall (Q : carried -> Prop) c, Q c -> Forall Q [c]) by (intros; constructor; [assumption|constructor]).
     constructor; [|constructor; [|constructor; [|constructor; [|constructor]]]]; cbn [fst snd]; unfold pid_units_ok.
-    + split; [apply F1, C1|]. split; [vm_compute; exact I|]. right. split; [left; reflexivity|apply G1; reflexivity].
+    + split; [apply F1, C1|]. split; [vm_compute; auto|]. right. split; [left; reflexivity|apply G1; reflexivity].
     + split; [constructor; [exact C3|apply F1, C4]|]. split; [vm_compute; auto|]. left. split; [unfold es_pid_ok; lia|].
       constructor; [reflexivity|apply G1; reflexivity].
     + split; [apply F1, C5|]. split; [vm_compute; exact I|]. left. split; [unfold es_pid_ok; lia|apply G1; reflexivity].
@@ -1725,14 +1822,16 @@ Proof.
     + apply raw_packet_ok; try assumption; try lia; try discriminate. { apply bytes_ok_b. vm_compute. reflexivity. } { rewrite repeat_length. lia. }
     + left. reflexivity.
   - vm_compute. repeat split; intros H; try discriminate H; auto.
-  - intros x Hx. vm_compute in Hx. destruct Hx as [<-|[]]. split; [discriminate|].
-    intros c Hc. cbn [units_of] in Hc. vm_compute in Hc. destruct Hc as [<-|[]]. reflexivity.
+  - intros x Hx. vm_compute in Hx. destruct Hx as [<-|[<-|[]]]; (split; [discriminate|]); intros c Hc; vm_compute in Hc.
+    + destruct Hc as [<-|[]]. reflexivity.
+    + contradiction.
 Qed.
 
-(* the model run on its bytes delivers: the PAT, the PMT when its third packet is read, the first video PES when the
-   second one starts, and at end of stream the second video PES and the audio PES, in PID order *)
+(* the model run on its bytes delivers: the two PAT sections when the second PAT packet is read, the PMT when its third
+   packet is read, the first video PES when the second one starts, and at end of stream the second video PES and the
+   audio PES, in PID order *)
 Example ex_stream_demuxed :
   demux_all (StreamSpec.stream_bytes ex_stream) = map Ok (expected ex_stream) /\
-  map DemuxerData_PID (expected ex_stream) = [0; 4096; 256; 256; 257] /\
-  length (StreamSpec.stream_bytes ex_stream) = (11 * 188)%nat.
+  map DemuxerData_PID (expected ex_stream) = [0; 0; 4096; 256; 256; 257] /\
+  length (StreamSpec.stream_bytes ex_stream) = (12 * 188)%nat.
 Proof. vm_compute. repeat split; reflexivity. Qed.
